@@ -178,6 +178,24 @@ def local_tag_sets(ctx):
     return out
 
 
+def special_tag_html_rule(ctx, rule, sets=None):
+    """the HTML members of the special category: the names I can state with certainty must all be there, and nothing beyond them
+    except the three names the living standard has been moving in and out (keygen, search, isindex), which are not judged"""
+    if sets is None:
+        sets = tag_set_fns(ctx)
+    CERTAIN = set("""address applet area article aside base basefont bgsound blockquote body br button caption center col colgroup dd details dir div dl dt
+        embed fieldset figcaption figure footer form frame frameset h1 h2 h3 h4 h5 h6 head header hgroup hr html iframe img input li link listing main marquee menu
+        meta nav noembed noframes noscript object ol p param plaintext pre script section select source style summary table tbody td template textarea tfoot th thead
+        title tr track ul wbr xmp""".split())
+    r = resolve(sets, "special_tag")
+    got = None if r is None else {x[1] for x in r if x[0] == "html"}
+    ok = got is not None and CERTAIN <= got and got - CERTAIN <= {"keygen", "search", "isindex"}
+    ctx.ob(rule, "spec-set/special_tag-html-members", ok, "the special category has the %d HTML names that are certain (and only keygen / search / isindex beyond them)" % len(CERTAIN) if ok else
+           "the special category lacks %s / has unexpected %s: the 'any other end tag' steps, the adoption agency's furthest block and the li/dd/dt loop treat such an element wrongly" % (
+               sorted(CERTAIN - (got or set())), sorted((got or set()) - CERTAIN - {"keygen", "search", "isindex"})), "html5ever tree_builder tag_sets special_tag")
+    return 1
+
+
 def r02_1(ctx):
     found = local_tag_sets(ctx)
     for outer, name, ent, sup in found:
@@ -216,6 +234,7 @@ def r02_1(ctx):
     for k in ("default_scope", "special_tag"):
         r = resolve(sets, k)
         check(k + "-foreign-members", None if r is None else {x for x in r if x[0] != "html"}, foreign, "MathML / SVG members of " + k)
+    n += special_tag_html_rule(ctx, "R02.1", sets)
     # integration points (matches! style)
     for fn, key, ns in (("mathml_text_integration_point", "mathml_text_integration_point", "mathml"), ("svg_html_integration_point", "svg_html_integration_point", "svg")):
         its = [it for it in ctx.ast.walkable("html5ever") if it["k"] == "Fn" and it["name"] == fn and it.get("body") is not None]
